@@ -30,7 +30,18 @@ pub(crate) fn escape_html_quote(s: &str) -> Cow<'_, str> {
 }
 
 pub(crate) fn gen_lit_str(s: &str) -> String {
-    format!("{:?}", s)
+    let mut ret = String::with_capacity(s.len() + 2);
+    ret.push('"');
+    for c in s.chars() {
+        match c {
+            // `\0` followed by a digit would be a legacy octal escape (a syntax error in strict mode)
+            '\0' => ret.push_str("\\x00"),
+            '\'' => ret.push('\''),
+            _ => ret.extend(c.escape_debug()),
+        }
+    }
+    ret.push('"');
+    ret
 }
 
 pub(crate) fn dash_to_camel(s: &str) -> CompactString {
